@@ -96,7 +96,7 @@ func c01case(c GCase, a *run.Acc) {
 		if c.Fam == "userlist" {
 			userAnyOnly = map[int]bool{1: true} // the producer only: its consumers are the library's own combinators
 		}
-		b = gram.Build(g, &gram.Hooks{Budget: gd.LeafTick, Inside: gd.Inside, Outside: gd.Outside, MemoExpr: c.MemoExpr, ShareLeaves: true, ShareExprs: run.Hash(g.String())%4 >= 2, UserAnyTop: run.Hash(g.String())%5 == 3 || c.Fam == "userlist", UserAnyOnly: userAnyOnly,
+		b = gram.Build(g, &gram.Hooks{Budget: gd.LeafTick, Inside: gd.Inside, Outside: gd.Outside, MemoExpr: c.MemoExpr, ShareLeaves: true, ShareExprs: run.Hash(g.String())%4 >= 2, NameOf: c01names(g), UserAnyTop: run.Hash(g.String())%5 == 3 || c.Fam == "userlist", UserAnyOnly: userAnyOnly,
 			// the activation bound is claimed for EVERY memoized parser, also the extra wrappers around sub-expressions
 			UnderMemo: func(e *gram.Expr, p parsley.Parser) parsley.Parser { return gd.Inside(1000+e.ID, p) }})
 		c01cache = c01built{g: g, memo: c.MemoExpr, gd: gd, b: b}
@@ -203,6 +203,20 @@ func c01case(c GCase, a *run.Acc) {
 	a.SetMax("activation depth", int64(gd.MaxDepth))
 }
 
+// c01names: a fifth of the grammars give a Name() to every Any, Choice and sequence. A name replaces the error of a
+// parser that failed at its own start - it has no say in which results exist, what is cached or what is curtailed.
+func c01names(g *gram.Grammar) func(e *gram.Expr) string {
+	if run.Hash(g.String())%5 != 1 {
+		return nil
+	}
+	return func(e *gram.Expr) string {
+		if e.Op == gram.OpAny || e.Op == gram.OpChoice || gram.IsSeqLike(e.Op) {
+			return fmt.Sprintf("x%d", e.ID)
+		}
+		return ""
+	}
+}
+
 func famClass(f string) string {
 	if len(f) > 7 && f[:7] == "corpus:" {
 		return "corpus"
@@ -307,6 +321,12 @@ func c01plan(tier string, seed int64) []run.Job {
 		jobs = append(jobs, run.Job{Family: "mutual", Seed: seed*100000 + 50000 + int64(i), N: per, P: map[string]int{"inputs": 6, "maxlen": 10}})
 		// hidden left recursion behind nullable prefixes of every result-list layout (zero-width alternative first / last / repeated)
 		jobs = append(jobs, run.Job{Family: "hidden", Seed: seed*100000 + 55000 + int64(i), N: per / 2, P: map[string]int{"inputs": 6, "maxlen": 9}})
+		// the same families with SuppressError around half of the nonterminal references (left-recursive ones included)
+		// and around an eighth of the other sub-expressions: the wrapper hands results, curtailing parsers and the
+		// left-recursion context through, so the grammar means what it meant
+		jobs = append(jobs, run.Job{Family: "mutual", Seed: seed*100000 + 51000 + int64(i), N: per / 4, P: map[string]int{"inputs": 6, "maxlen": 10, "suppress": 1}})
+		jobs = append(jobs, run.Job{Family: "hidden", Seed: seed*100000 + 54000 + int64(i), N: per / 4, P: map[string]int{"inputs": 6, "maxlen": 9, "suppress": 1}})
+		jobs = append(jobs, run.Job{Family: "random", Seed: seed*100000 + 53000 + int64(i), N: per / 4, P: map[string]int{"strat": 1, "maxlen": 8, "inputs": 6, "suppress": 1}})
 		// grammars over string literals (terminal.String): a literal is read more than once at one position
 		jobs = append(jobs, run.Job{Family: "strings", Seed: seed*100000 + 58000 + int64(i), N: per / 4, P: map[string]int{"inputs": 6}})
 		// lists built by a hand-written combinator, cached by Memoize and extended by several consumers at one position
